@@ -1,0 +1,247 @@
+//go:build verif
+
+package interp
+
+// Verification hook for property C27 (subshell isolation); add-only, compiled only with -tags verif.
+// It exports a heap-shape dump of a Runner's variable storage: for every overlay scope and
+// variable the slice lengths/capacities and the *identity classes* of the backing arrays and
+// maps (which slices share storage), numbered canonically in order of first appearance.
+// No address is ever exported.
+
+import (
+	"bytes"
+	"reflect"
+	"sort"
+	"unsafe"
+
+	"mvdan.cc/sh/v3/expand"
+	"mvdan.cc/sh/v3/syntax"
+)
+
+// VerifC27Var is one variable of one overlay scope.
+type VerifC27Var struct {
+	Name                          string
+	Kind                          int
+	Set, Local, Exported, ReadOnly bool
+	Str                           string
+	ListNil                       bool
+	ListLen, ListCap, ListClass   int
+	List                          []string
+	IdxNil                        bool
+	IdxLen, IdxCap, IdxClass      int
+	Idx                           []int
+	MapNil                        bool
+	MapClass                      int
+	MapKeys, MapVals              []string
+}
+
+// VerifC27Scope is one *overlayEnviron of the writeEnv chain (innermost first).
+type VerifC27Scope struct {
+	Class     int
+	FuncScope bool
+	Parent    int // -1 nil, -2 a non-overlay Environ (the Runner's Env), else the class of the parent overlay
+	ValuesNil bool
+	Vars      []VerifC27Var // sorted by name
+}
+
+// VerifC27Slice describes a []string field of the Runner.
+type VerifC27Slice struct {
+	Nil             bool
+	Len, Cap, Class int
+	Vals            []string
+}
+
+// VerifC27Runner is the part of a Runner's state that property C27 talks about.
+type VerifC27Runner struct {
+	Scopes      []VerifC27Scope
+	BaseNames   []string // names of the non-overlay root Environ, in Each order
+	BaseVals    []string
+	Params      VerifC27Slice
+	DirStack    VerifC27Slice
+	Dir         string
+	Opts        []bool
+	FuncsNil    bool
+	FuncsClass  int
+	FuncNames   []string // sorted
+	FuncBodies  []string // printed bodies
+	AliasNil    bool
+	AliasClass  int
+	AliasNames  []string // sorted
+	AliasVals   []string // printed words joined by a space
+	AliasBlanks []bool
+	InFunc      bool
+}
+
+type verifC27Classes struct {
+	strs, ints, maps, scopes, fmaps, amaps map[uintptr]int
+}
+
+func verifC27Class(m map[uintptr]int, p uintptr) int {
+	if c, ok := m[p]; ok {
+		return c
+	}
+	c := len(m) + 1
+	m[p] = c
+	return c
+}
+
+// A slice's identity is the end of its capacity, which is invariant under s[i:] and s[:j].
+// Class -1: nil; class 0: zero capacity (no storage that could be written).
+func verifC27StrSlice(cl *verifC27Classes, s []string) VerifC27Slice {
+	out := VerifC27Slice{Nil: s == nil, Len: len(s), Cap: cap(s), Vals: append([]string{}, s...)}
+	switch {
+	case s == nil:
+		out.Class = -1
+	case cap(s) == 0:
+		out.Class = 0
+	default:
+		end := uintptr(unsafe.Pointer(unsafe.SliceData(s[:cap(s)]))) + uintptr(cap(s))*unsafe.Sizeof("")
+		out.Class = verifC27Class(cl.strs, end)
+	}
+	return out
+}
+
+func verifC27Var(cl *verifC27Classes, name string, vr expand.Variable) VerifC27Var {
+	v := VerifC27Var{Name: name, Kind: int(vr.Kind), Set: vr.Set, Local: vr.Local, Exported: vr.Exported,
+		ReadOnly: vr.ReadOnly, Str: vr.Str}
+	l := verifC27StrSlice(cl, vr.List)
+	v.ListNil, v.ListLen, v.ListCap, v.ListClass, v.List = l.Nil, l.Len, l.Cap, l.Class, l.Vals
+	v.IdxNil, v.IdxLen, v.IdxCap = vr.Indexes == nil, len(vr.Indexes), cap(vr.Indexes)
+	v.Idx = append([]int{}, vr.Indexes...)
+	switch {
+	case vr.Indexes == nil:
+		v.IdxClass = -1
+	case cap(vr.Indexes) == 0:
+		v.IdxClass = 0
+	default:
+		s := vr.Indexes
+		end := uintptr(unsafe.Pointer(unsafe.SliceData(s[:cap(s)]))) + uintptr(cap(s))*unsafe.Sizeof(int(0))
+		v.IdxClass = verifC27Class(cl.ints, end)
+	}
+	v.MapNil = vr.Map == nil
+	v.MapClass = -1
+	if vr.Map != nil {
+		v.MapClass = verifC27Class(cl.maps, reflect.ValueOf(vr.Map).Pointer())
+		for k := range vr.Map {
+			v.MapKeys = append(v.MapKeys, k)
+		}
+		sort.Strings(v.MapKeys)
+		for _, k := range v.MapKeys {
+			v.MapVals = append(v.MapVals, vr.Map[k])
+		}
+	}
+	return v
+}
+
+func verifC27One(cl *verifC27Classes, r *Runner) VerifC27Runner {
+	var out VerifC27Runner
+	var env expand.Environ = r.writeEnv
+	for env != nil {
+		o, ok := env.(*overlayEnviron)
+		if !ok {
+			for name, vr := range env.Each {
+				out.BaseNames = append(out.BaseNames, name)
+				out.BaseVals = append(out.BaseVals, vr.Str)
+			}
+			break
+		}
+		sc := VerifC27Scope{FuncScope: o.funcScope, ValuesNil: o.values == nil, Parent: -1}
+		sc.Class = verifC27Class(cl.scopes, uintptr(unsafe.Pointer(o)))
+		names := make([]string, 0, len(o.values))
+		for k := range o.values {
+			names = append(names, k)
+		}
+		sort.Strings(names)
+		for _, k := range names {
+			nv := o.values[k]
+			sc.Vars = append(sc.Vars, verifC27Var(cl, nv.Name, nv.Variable))
+		}
+		switch p := o.parent.(type) {
+		case nil:
+			sc.Parent = -1
+			env = nil
+		case *overlayEnviron:
+			if p == nil {
+				sc.Parent = -1
+				env = nil
+			} else {
+				sc.Parent = verifC27Class(cl.scopes, uintptr(unsafe.Pointer(p)))
+				env = p
+			}
+		default:
+			sc.Parent = -2
+			env = p
+		}
+		out.Scopes = append(out.Scopes, sc)
+	}
+	out.Params = verifC27StrSlice(cl, r.Params)
+	out.DirStack = verifC27StrSlice(cl, r.dirStack)
+	out.Dir = r.Dir
+	out.Opts = append([]bool{}, r.opts[:]...)
+	out.FuncsNil, out.FuncsClass = r.Funcs == nil, -1
+	if r.Funcs != nil {
+		out.FuncsClass = verifC27Class(cl.fmaps, reflect.ValueOf(r.Funcs).Pointer())
+		for k := range r.Funcs {
+			out.FuncNames = append(out.FuncNames, k)
+		}
+		sort.Strings(out.FuncNames)
+		for _, k := range out.FuncNames {
+			var buf bytes.Buffer
+			if body := r.Funcs[k]; body != nil {
+				syntax.NewPrinter().Print(&buf, body)
+			}
+			out.FuncBodies = append(out.FuncBodies, buf.String())
+		}
+	}
+	out.AliasNil, out.AliasClass = r.alias == nil, -1
+	if r.alias != nil {
+		out.AliasClass = verifC27Class(cl.amaps, reflect.ValueOf(r.alias).Pointer())
+		for k := range r.alias {
+			out.AliasNames = append(out.AliasNames, k)
+		}
+		sort.Strings(out.AliasNames)
+		for _, k := range out.AliasNames {
+			als := r.alias[k]
+			var buf bytes.Buffer
+			if len(als.args) > 0 {
+				syntax.NewPrinter().Print(&buf, &syntax.CallExpr{Args: als.args})
+			}
+			out.AliasVals = append(out.AliasVals, buf.String())
+			out.AliasBlanks = append(out.AliasBlanks, als.blank)
+		}
+	}
+	out.InFunc = r.inFunc
+	return out
+}
+
+// VerifC27Dump dumps the given runners with identity classes numbered across all of them, in
+// order of first appearance (runner by runner; scopes innermost first; variables by name; list,
+// indexes, map; then Params, dirStack, Funcs, alias).
+func VerifC27Dump(rs ...*Runner) []VerifC27Runner {
+	cl := &verifC27Classes{
+		strs: map[uintptr]int{}, ints: map[uintptr]int{}, maps: map[uintptr]int{},
+		scopes: map[uintptr]int{}, fmaps: map[uintptr]int{}, amaps: map[uintptr]int{},
+	}
+	out := make([]VerifC27Runner, len(rs))
+	for i, r := range rs {
+		out[i] = verifC27One(cl, r)
+	}
+	return out
+}
+
+// VerifC27Subshell is Runner.subshell.
+func VerifC27Subshell(r *Runner, background bool) *Runner {
+	return r.subshell(background)
+}
+
+// VerifC27OptNames lists the option names in the order of the Runner's opts array.
+func VerifC27OptNames() []string {
+	var names []string
+	for _, o := range &posixOptsTable {
+		names = append(names, o.name)
+	}
+	for _, o := range bashOptsTable {
+		names = append(names, o.name)
+	}
+	return names
+}
